@@ -421,3 +421,253 @@ Proof.
     pose proof (Z.mul_succ_div_gt (t - o) dlen Hd). lia.
   - intros H. symmetry. apply (Z.div_unique_pos (t - o) dlen q (t - o - q * dlen)); lia.
 Qed.
+
+(* ====================================================================== generate_period_offset_map *)
+Lemma nthZ_cons_succ x l i : 0 <= i -> nthZ (x :: l) (i + 1) = nthZ l i.
+Proof. apply nthd_cons_succ. Qed.
+
+Lemma nthZ_cons_pos x l i : 0 < i -> nthZ (x :: l) i = nthZ l (i - 1).
+Proof. intros H. replace i with ((i - 1) + 1) at 1 by lia. apply nthZ_cons_succ. lia. Qed.
+
+Lemma nthZ_repeat v n d : 0 <= d < Z.of_nat n -> nthZ (repeat v n) d = v.
+Proof.
+  intros H. unfold nthZ, nthd. assert (Hn : (Z.to_nat d < n)%nat) by lia. revert Hn.
+  generalize (Z.to_nat d) as k. clear H. induction n as [|n IH]; intros k Hk; [lia|].
+  destruct k; cbn; [reflexivity|]. apply IH. lia.
+Qed.
+
+Lemma len_repeat {A} (v:A) n : len (repeat v n) = Z.of_nat n.
+Proof. unfold len. rewrite repeat_length. reflexivity. Qed.
+
+Lemma len_firstn {A} (l:list A) a : 0 <= a <= len l -> len (firstn (Z.to_nat a) l) = a.
+Proof. unfold len. intros H. rewrite firstn_length. lia. Qed.
+
+Lemma len_skipn {A} (l:list A) a : 0 <= a <= len l -> len (skipn (Z.to_nat a) l) = len l - a.
+Proof. unfold len. intros H. rewrite skipn_length. lia. Qed.
+
+Lemma slice_assign_spec arr a b v : 0 <= a -> a <= b -> b <= len arr ->
+  len (slice_assign arr a b v) = len arr /\
+  forall d, 0 <= d < len arr ->
+    nthZ (slice_assign arr a b v) d = if (a <=? d) && (d <? b) then v else nthZ arr d.
+Proof.
+  intros Ha Hab Hb. unfold slice_assign, norm_bound.
+  replace (a <? 0) with false by (symmetry; apply Z.ltb_ge; lia).
+  replace (b <? 0) with false by (symmetry; apply Z.ltb_ge; lia).
+  rewrite (Z.min_l a) by lia. rewrite (Z.min_l b) by lia.
+  destruct (a <? b) eqn:Eab.
+  - apply Z.ltb_lt in Eab. split.
+    + rewrite !len_app, len_repeat, len_firstn, len_skipn by lia. lia.
+    + intros d Hd. destruct (Z.lt_ge_cases d a) as [Hda|Hda].
+      * replace ((a <=? d) && (d <? b)) with false by lia.
+        unfold nthZ. rewrite nthd_app_l by (rewrite len_firstn; lia).
+        unfold nthd. apply nth_firstn. lia.
+      * unfold nthZ. rewrite nthd_app_r by (rewrite len_firstn; lia). rewrite len_firstn by lia.
+        destruct (Z.lt_ge_cases d b) as [Hdb|Hdb].
+        -- replace ((a <=? d) && (d <? b)) with true by lia.
+           rewrite nthd_app_l by (rewrite len_repeat; lia). apply nthZ_repeat. lia.
+        -- replace ((a <=? d) && (d <? b)) with false by lia.
+           rewrite nthd_app_r by (rewrite len_repeat; lia). rewrite len_repeat.
+           unfold nthd. rewrite nth_skipn. f_equal. lia.
+  - apply Z.ltb_ge in Eab. split; [reflexivity|]. intros d Hd.
+    replace ((a <=? d) && (d <? b)) with false by lia. reflexivity.
+Qed.
+
+Lemma last_cons2 (x y:Z) l : last (x :: y :: l) 0 = last (y :: l) 0.
+Proof. reflexivity. Qed.
+
+Lemma last_nthZ l : l <> [] -> last l 0 = nthZ l (len l - 1).
+Proof.
+  induction l as [|x t IH]; intros H; [congruence|]. destruct t as [|y t'].
+  - reflexivity.
+  - rewrite last_cons2, IH by discriminate. rewrite (len_cons x). rewrite (nthZ_cons_pos x).
+    + f_equal. lia.
+    + rewrite len_cons. pose proof (len_nonneg t'). lia.
+Qed.
+
+Lemma sorted_le_last l k : sorted l -> 0 <= k < len l -> nthZ l k <= last l 0.
+Proof.
+  intros Hs Hk. rewrite last_nthZ by (intros ->; unfold len in Hk; cbn in Hk; lia).
+  apply Hs; lia.
+Qed.
+
+Lemma sorted_head2 x y l : sorted (x :: y :: l) -> x <= y.
+Proof.
+  intros H. specialize (H 0 1 ltac:(lia) ltac:(lia)). rewrite !len_cons in H.
+  pose proof (len_nonneg l). apply H. lia.
+Qed.
+
+Lemma fill_periods_cons2 d0 d1 t i arr :
+  fill_periods (d0 :: d1 :: t) i arr = fill_periods (d1 :: t) (i + 1) (slice_assign arr d0 d1 i).
+Proof. reflexivity. Qed.
+
+Lemma fill_periods_inv : forall ds i arr,
+  sorted ds -> ds <> [] -> 0 <= nthZ ds 0 -> last ds 0 <= len arr ->
+  len (fill_periods ds i arr) = len arr /\
+  forall d, 0 <= d < len arr ->
+    (d < nthZ ds 0 -> nthZ (fill_periods ds i arr) d = nthZ arr d) /\
+    (last ds 0 <= d -> nthZ (fill_periods ds i arr) d = nthZ arr d) /\
+    (forall k, 0 <= k < len ds - 1 -> nthZ ds k <= d < nthZ ds (k + 1) ->
+               nthZ (fill_periods ds i arr) d = i + k).
+Proof.
+  induction ds as [|d0 t IH]; intros i arr Hs Hne H0 Hlast; [congruence|].
+  destruct t as [|d1 t'].
+  - cbn [fill_periods]. split; [reflexivity|]. intros d Hd. split; [reflexivity|]. split; [reflexivity|].
+    intros k Hk. unfold len in Hk. cbn in Hk. lia.
+  - rewrite fill_periods_cons2. change (nthZ (d0 :: d1 :: t') 0) with d0 in *.
+    pose proof (sorted_head2 _ _ _ Hs) as H01. pose proof (sorted_tail _ _ Hs) as Hst.
+    rewrite last_cons2 in *.
+    assert (Hd1last : d1 <= last (d1 :: t') 0).
+    { apply (sorted_le_last (d1 :: t') 0 Hst). rewrite len_cons. pose proof (len_nonneg t'). lia. }
+    destruct (slice_assign_spec arr d0 d1 i H0 H01 ltac:(lia)) as [Hlen' Hnth'].
+    set (arr' := slice_assign arr d0 d1 i) in *.
+    destruct (IH (i + 1) arr' Hst ltac:(discriminate) ltac:(change (nthZ (d1 :: t') 0) with d1; lia)
+                 ltac:(lia)) as [HlenR HR].
+    change (nthZ (d1 :: t') 0) with d1 in HR.
+    split; [lia|]. intros d Hd. rewrite Hlen' in HR. specialize (HR d Hd). destruct HR as [HR1 [HR2 HR3]].
+    specialize (Hnth' d Hd). split; [|split].
+    + intros Hlt. rewrite HR1 by lia. rewrite Hnth'. replace ((d0 <=? d) && (d <? d1)) with false by lia.
+      reflexivity.
+    + intros Hge. rewrite HR2 by lia. rewrite Hnth'. replace ((d0 <=? d) && (d <? d1)) with false by lia.
+      reflexivity.
+    + intros k Hk Hin. destruct (Z.eq_dec k 0) as [->|Hk0].
+      * change (nthZ (d0 :: d1 :: t') 0) with d0 in Hin. change (nthZ (d0 :: d1 :: t') (0 + 1)) with d1 in Hin.
+        rewrite HR1 by lia. rewrite Hnth'. replace ((d0 <=? d) && (d <? d1)) with true by lia. lia.
+      * rewrite (nthZ_cons_pos d0) in Hin by lia. rewrite (nthZ_cons_pos d0) in Hin by lia.
+        replace (k + 1 - 1) with ((k - 1) + 1) in Hin by lia.
+        rewrite (HR3 (k - 1)); [lia| |exact Hin].
+        rewrite (len_cons d0) in Hk. lia.
+Qed.
+
+Lemma interval_exists : forall ds d, ds <> [] -> nthZ ds 0 <= d < last ds 0 ->
+  exists k, 0 <= k < len ds - 1 /\ nthZ ds k <= d < nthZ ds (k + 1).
+Proof.
+  induction ds as [|d0 t IH]; intros d Hne Hd; [congruence|]. destruct t as [|d1 t'].
+  - cbn in Hd. lia.
+  - change (nthZ (d0 :: d1 :: t') 0) with d0 in Hd. rewrite last_cons2 in Hd.
+    destruct (Z.lt_ge_cases d d1) as [Hlt|Hge].
+    + exists 0. rewrite !len_cons. pose proof (len_nonneg t'). split; [lia|].
+      change (nthZ (d0 :: d1 :: t') 0) with d0. change (nthZ (d0 :: d1 :: t') (0 + 1)) with d1. lia.
+    + destruct (IH d ltac:(discriminate)) as [k [Hk Hin]].
+      { change (nthZ (d1 :: t') 0) with d1. lia. }
+      exists (k + 1). rewrite (len_cons d0). split; [lia|].
+      rewrite !(nthZ_cons_succ d0) by lia. exact Hin.
+Qed.
+
+Lemma interval_unique ds d i j : sorted ds ->
+  0 <= i < len ds - 1 -> 0 <= j < len ds - 1 ->
+  in_period ds i d -> in_period ds j d -> i = j.
+Proof.
+  unfold in_period. intros Hs Hi Hj Hdi Hdj.
+  destruct (Z.lt_trichotomy i j) as [Hlt|[Heq|Hgt]]; [|exact Heq|].
+  - pose proof (Hs (i + 1) j ltac:(lia) ltac:(lia) ltac:(lia)). lia.
+  - pose proof (Hs (j + 1) i ltac:(lia) ltac:(lia) ltac:(lia)). lia.
+Qed.
+
+Lemma period_deltas_spec dlen periods : period_deltas dlen periods = deltas_spec dlen periods.
+Proof. destruct periods; reflexivity. Qed.
+
+Lemma len_map {A B} (g:A -> B) l : len (map g l) = len l.
+Proof. unfold len. rewrite map_length. reflexivity. Qed.
+
+Lemma nthZ_map g l i : 0 <= i < len l -> nthZ (map g l) i = g (nthZ l i).
+Proof. intros H. unfold nthZ, nthd, len in *. apply nth_map_lt. lia. Qed.
+
+Lemma sorted_map_mono g l : (forall x y, x <= y -> g x <= g y) -> sorted l -> sorted (map g l).
+Proof.
+  intros Hg Hs i j Hi Hij Hj. rewrite len_map in Hj. rewrite !nthZ_map by lia. apply Hg. apply Hs; lia.
+Qed.
+
+Lemma deltas_sorted dlen periods : 0 < dlen -> sorted periods -> sorted (deltas_spec dlen periods).
+Proof.
+  intros Hd Hs. unfold deltas_spec. apply sorted_map_mono; [|exact Hs].
+  intros x y Hxy. apply Z.div_le_mono; lia.
+Qed.
+
+Lemma deltas_head dlen periods : 0 < dlen -> periods <> [] -> nthZ (deltas_spec dlen periods) 0 = 0.
+Proof.
+  intros Hd Hne. destruct periods as [|p0 t]; [congruence|]. unfold deltas_spec.
+  change (nthZ (p0 :: t) 0) with p0. cbn [map]. change (nthZ (?x :: _) 0) with x.
+  rewrite Z.sub_diag. apply Z.div_0_l. lia.
+Qed.
+
+Lemma deltas_last dlen periods : periods <> [] ->
+  last (deltas_spec dlen periods) 0 = (last periods 0 - nthZ periods 0) / dlen.
+Proof.
+  intros Hne. unfold deltas_spec. generalize (nthZ periods 0) as p0. intros p0.
+  induction periods as [|x t IH]; [congruence|]. destruct t as [|y t'].
+  - reflexivity.
+  - cbn [map]. cbn [map] in IH. rewrite !last_cons2. apply IH. discriminate.
+Qed.
+
+Lemma gen_map_unfold dlen periods : periods <> [] ->
+  generate_period_offset_map dlen periods =
+  let ds := deltas_spec dlen periods in
+  if last ds 0 <? 0 then Raise E_ValueError
+  else Ok (fill_periods ds 0 (repeat 0 (Z.to_nat (last ds 0)))).
+Proof.
+  intros Hne. destruct periods as [|p0 t]; [congruence|]. unfold generate_period_offset_map.
+  rewrite period_deltas_spec. reflexivity.
+Qed.
+
+(* the map theorem: for non-decreasing boundaries, entry d is the index of the period whose
+   half-open interval of day offsets contains d; the map covers exactly [0, last delta) *)
+Lemma period_map_halfopen_proof dlen periods :
+  0 < dlen -> periods <> [] -> sorted periods ->
+  let ds := deltas_spec dlen periods in
+  exists m, generate_period_offset_map dlen periods = Ok m /\
+    nthZ ds 0 = 0 /\ len m = last ds 0 /\
+    (forall d, 0 <= d < len m -> 0 <= nthZ m d < len ds - 1 /\ in_period ds (nthZ m d) d) /\
+    (forall d i, 0 <= d < len m -> 0 <= i < len ds - 1 -> (nthZ m d = i <-> in_period ds i d)).
+Proof.
+  intros Hd Hne Hs ds. rewrite gen_map_unfold by exact Hne. fold ds. cbv zeta.
+  pose proof (deltas_sorted dlen periods Hd Hs) as Hsd. fold ds in Hsd.
+  pose proof (deltas_head dlen periods Hd Hne) as Hh. fold ds in Hh.
+  assert (Hdne : ds <> []).
+  { unfold ds, deltas_spec. destruct periods; [congruence|discriminate]. }
+  assert (Hlast0 : 0 <= last ds 0).
+  { assert (Hx : nthZ ds 0 <= last ds 0); [|lia]. apply sorted_le_last; [exact Hsd|].
+    destruct ds as [|x ds']; [congruence|]. rewrite len_cons. pose proof (len_nonneg ds'). lia. }
+  replace (last ds 0 <? 0) with false by lia.
+  set (arr := repeat 0 (Z.to_nat (last ds 0))).
+  assert (Hlarr : len arr = last ds 0) by (unfold arr; rewrite len_repeat; lia).
+  destruct (fill_periods_inv ds 0 arr Hsd Hdne ltac:(lia) ltac:(lia)) as [Hlen HR].
+  set (m := fill_periods ds 0 arr) in *.
+  assert (Hcover : forall d, 0 <= d < len m -> exists k, 0 <= k < len ds - 1 /\ in_period ds k d /\ nthZ m d = k).
+  { intros d Hdm. destruct (interval_exists ds d Hdne ltac:(lia)) as [k [Hk Hin]].
+    exists k. split; [exact Hk|]. split; [exact Hin|].
+    destruct (HR d ltac:(lia)) as [_ [_ H3]]. rewrite (H3 k Hk Hin). lia. }
+  exists m. split; [reflexivity|]. split; [exact Hh|]. split; [lia|]. split.
+  - intros d Hdm. destruct (Hcover d Hdm) as [k [Hk [Hin ->]]]. split; assumption.
+  - intros d i Hdm Hi. destruct (Hcover d Hdm) as [k [Hk [Hin Hmk]]]. split.
+    + intros <-. rewrite Hmk. exact Hin.
+    + intros Hini. rewrite Hmk. apply (interval_unique ds d k i Hsd Hk Hi Hin Hini).
+Qed.
+
+(* exact characterisation of the failures of generate_period_offset_map (any input) *)
+Lemma period_map_errors_proof dlen periods : 0 < dlen ->
+  (periods = [] -> generate_period_offset_map dlen periods = Raise E_IndexError) /\
+  (periods <> [] -> last periods 0 < nthZ periods 0 ->
+     generate_period_offset_map dlen periods = Raise E_ValueError) /\
+  (periods <> [] -> nthZ periods 0 <= last periods 0 ->
+     exists m, generate_period_offset_map dlen periods = Ok m /\
+               len m = (last periods 0 - nthZ periods 0) / dlen).
+Proof.
+  intros Hd. split; [intros ->; reflexivity|]. split.
+  - intros Hne Hlt. rewrite gen_map_unfold by exact Hne. cbv zeta. rewrite deltas_last by exact Hne.
+    replace ((last periods 0 - nthZ periods 0) / dlen <? 0) with true; [reflexivity|].
+    symmetry. apply Z.ltb_lt. apply Z.div_lt_upper_bound; lia.
+  - intros Hne Hle. rewrite gen_map_unfold by exact Hne. cbv zeta. rewrite deltas_last by exact Hne.
+    assert (H0 : 0 <= (last periods 0 - nthZ periods 0) / dlen) by (apply Z.div_pos; lia).
+    replace ((last periods 0 - nthZ periods 0) / dlen <? 0) with false by lia.
+    eexists. split; [reflexivity|].
+    (* length is preserved by fill_periods whatever the deltas are *)
+    assert (Hfl : forall ds i arr, len (fill_periods ds i arr) = len arr).
+    { induction ds as [|a t IH]; intros i arr; [reflexivity|]. destruct t as [|b t']; [reflexivity|].
+      rewrite fill_periods_cons2. rewrite IH. unfold slice_assign.
+      set (n := len arr). pose proof (len_nonneg arr) as Hn. fold n in Hn.
+      assert (Hb : forall x, 0 <= norm_bound n x <= n) by (intros x; unfold norm_bound; destruct (x <? 0) eqn:Ex; lia).
+      pose proof (Hb a). pose proof (Hb b).
+      destruct (norm_bound n a <? norm_bound n b) eqn:E; [|reflexivity].
+      rewrite !len_app, len_repeat, len_firstn, len_skipn by (fold n; lia). fold n. lia. }
+    rewrite Hfl, len_repeat. lia.
+Qed.
